@@ -31,6 +31,18 @@ def run_demo(cmds):
     for c in cmds:
         rc, o = sh(c); out += o[-1500:]
         ok = ok and rc == 0
+    if py:
+        # Python demonstrations run against the extension module built from the worktree as it is now
+        rc, o = sh("cargo build -p bourse --release --offline 2>&1 | tail -2")
+        d = os.path.join(wt, "target", "pydemo", "bourse")
+        os.makedirs(d, exist_ok=True)
+        shutil.copy(os.path.join(wt, "target", "release", "libbourse.so"), os.path.join(d, "core.so"))
+        for f in py:
+            if os.path.basename(f) != "demo.py" and len(py) > 1:
+                continue
+            rc, o = sh("python3-vt %s %s %s" % (f, os.path.dirname(d), wt))
+            out += o[-1500:]
+            ok = ok and rc == 0
     return ok, out
 # without the patch
 cmds = place_demo()
